@@ -19,6 +19,13 @@ def run(tier):
         j = cout['result'] or {}
         if cout['accepted'] and (j.get('missing_to_std') or j.get('missing_from_std')):
             chk.note_inconclusive(f"legs not exercised: to_std {j['missing_to_std']} from_std {j['missing_from_std']} of {j['expected_legs']}")
+        seq_static = len([e for e in evs if e['entry'] == 'static' and e['seq_n'] > 0])
+        if seq_static < 2 * 3 * (len(un) - 37):
+            chk.note_inconclusive(f'sequence overloads of ConvertStatically instantiated for only {seq_static} (pair, numeric type) combinations')
+        chk.layer('B.sequences', static_pairs_with_sequence_overloads=seq_static, runtime_pairs_with_sequence_overloads=len([e for e in evs if e['entry'] == 'run']),
+                  component_comparisons=sum(max(0, e['seq_n']) for e in evs),
+                  note='std::array / std::vector / PlanarVector / Vector / SymmetricDyad / Dyad overloads of Convert, ConvertInPlace (every run-time pair) and ConvertStatically '
+                       '(every unit to / from standard and to its successor) against the scalar overload, bit for bit')
         chk.layer('B', abstract_events=len(evs), concrete_conversions=nvals,
                   ordered_pairs=len({(e['type'], e['from'], e['to']) for e in evs}),
                   worst_ulps=max([e['ulps'] for e in evs] or [0]), budget_ulps=16,
